@@ -661,7 +661,7 @@ def finding_keys(s, data):
         if dash_fence_rows(s["delimiter"], zip(*texts)):
             keys.add("C16:read_scsv:dash-delimited-empty-row-is-fence")
         if yaml_special(s["delimiter"]) or yaml_special(s["missing"]) or any(
-                yaml_special(x) for f in fs for x in (f.get("name"), f.get("fill")) if isinstance(x, str)):
+                yaml_special(x) for f in fs for x in (f.get("name"), f.get("fill"), f.get("unit")) if isinstance(x, str)):
             keys.add("C16:write_scsv_header:yaml-special-character")
         if not namedtuple_ok([f["name"] for f in fs]):
             keys.add("C16:read_scsv:namedtuple-rejects-identifier")
@@ -687,7 +687,7 @@ def classify(s, data, loaded):
     if dash_fence_rows(s["delimiter"], zip(*out_texts(s, data))):
         return "C16:read_scsv:dash-delimited-empty-row-is-fence"
     if yaml_special(s["delimiter"]) or yaml_special(s["missing"]) or any(
-            yaml_special(x) for f in s["fields"] for x in (f.get("name"), f.get("fill")) if isinstance(x, str)):
+            yaml_special(x) for f in s["fields"] for x in (f.get("name"), f.get("fill"), f.get("unit")) if isinstance(x, str)):
         return "C16:write_scsv_header:yaml-special-character"
     if loaded is None and unit_breaks_yaml(s):
         return "C16:write_scsv_header:unit-breaks-yaml"
@@ -1363,7 +1363,8 @@ def gen_terse_inputs(rng, n):
 
 
 HOSTILE_UNITS = ["%", "%d", "a: b", ": x", "x: ", "[", "{", "}", ",", "'", '"x', "*", "&a", "!t", "@", "`", "-", "- x", "? x", "#c", "x #c", "|", ">",
-                 "yes", "null", "1e3", "...", "---", "", " ", "[m]", "(m)", "m]", "percent", "\xb5m", "m/s", "kg m^-3", "\xb0C", "\U0001d4dc"]
+                 "yes", "null", "1e3", "...", "---", "", " ", "[m]", "(m)", "m]", "percent", "\xb5m", "m/s", "kg m^-3", "\xb0C", "\U0001d4dc",
+                 "it's", "''", "'", "a 'b' c", "\x1f", "k\x7fg", "a\x85b", "\ufffe"]     # the last four: open finding yaml-special-character, through the unit
 
 
 def gen_unit_cases(rng):
@@ -2171,10 +2172,21 @@ def _run(chk, ok, br, tmp):
         if pred(r) and key not in fixed:
             reproducing.add(key)
             chk.known_finding(f"key={key} {desc}; witness schema={json.dumps(s)} data={data!r} observed={r[:3]!r}")
-    new = list(unclassified)
+    # a round-trip failure is excused when it is classified as a recorded finding that still reproduces, or when the input
+    # carries the SIGNATURE of one (finding_keys: any field type, any position - delimiter / missing / name / fill / unit -,
+    # independent of the order classify() looks at things and of whether the header could be loaded)
+    def by_signature(c):
+        try:
+            return (c.get("kind") == "rt" and c.get("fault") not in DOCUMENTED_FAULTS
+                    and bool(finding_keys(c["schema"], c["data"]) & reproducing))
+        except Exception:  # noqa: BLE001
+            return False
+    new = [(c, t) for c, t in unclassified if not by_signature(c)]
     for k, v in hits.items():
         if k not in reproducing:
-            new += v
+            new += [(c, t) for c, t in v if not by_signature(c)]
+    chk.cov["excused_by_signature"] = sum(1 for c, _ in unclassified if by_signature(c)) + sum(
+        1 for k, v in hits.items() if k not in reproducing for c, _ in v if by_signature(c))
     chk.cov["open_findings_reproduced"] = sorted(reproducing)
     chk.cov["unexcused_property_failures"] = [t for _, t in new[:10]]
     if ok and not bad and not new:
@@ -2182,11 +2194,12 @@ def _run(chk, ok, br, tmp):
     # ---- something broke: search for a failing input with the property oracle
     found = []
     pool = [c for c, _ in new] + [c for c, _ in bad if c.get("kind") in ("rt", "file")] + [c for c in cases if c["kind"] in ("rt", "file")]
-    # inputs that carry a recorded finding which still reproduces on this tree fail for that reason as well: they are tried last
+    # inputs that carry the signature of a recorded finding which still reproduces on this tree fail for that reason as well
     global SHRINK_AVOID
     SHRINK_AVOID = set(reproducing)
-    clean = [c for c in pool if c["kind"] == "file" or not (finding_keys(c["schema"], c["data"]) & reproducing)]
-    pool = clean + [c for c in pool if not any(c is x for x in clean)]
+    # ... and are no witnesses of anything new: they are not reported (documented-fault cases are judged by the refusal only)
+    pool = [c for c in pool if c["kind"] == "file" or c.get("fault") in DOCUMENTED_FAULTS
+            or not (finding_keys(c["schema"], c["data"]) & reproducing)]
     seen = set()
     for c in pool:
         if c["kind"] == "file":
